@@ -74,6 +74,7 @@ pub mod prelude {
     impl Leaf for Zst { const N: usize = 1; fn d(_: usize) -> Zst { Zst } fn id(&self) -> usize { 0 } }
     impl Leaf for u8 { const N: usize = 3; fn d(i: usize) -> u8 { [0u8, 100, 200][i] } fn id(&self) -> usize { (*self / 100) as usize } }
 
+    pub static LS: [[L; 3]; 8] = [[L(0), L(1), L(2)]; 8];
     pub static CALLS: core::sync::atomic::AtomicUsize = core::sync::atomic::AtomicUsize::new(0);
     pub fn calls_reset() { CALLS.store(0, core::sync::atomic::Ordering::SeqCst); }
     pub fn calls() -> usize { CALLS.load(core::sync::atomic::Ordering::SeqCst) }
@@ -249,10 +250,11 @@ class TypeDef:
             parts = []
             for f in v.fields:
                 a = "".join(x + "\n" for x in f.attr_src)
+                ty = getattr(f, "ty_src", f.ty)
                 if v.shape == "named":
-                    parts.append("%s pub %s: %s" % (a, f.name, f.ty))
+                    parts.append("%s pub %s: %s" % (a, f.name, ty))
                 else:
-                    parts.append("%s pub %s" % (a, f.ty))
+                    parts.append("%s pub %s" % (a, ty))
             return ", ".join(parts)
 
         if self.kind == "struct":
